@@ -56,7 +56,7 @@ def shards(tier, seed):
 
 def universe(seed, uid):
     rng = core.rng_for(seed, PROP, 'uni%d' % uid)
-    o = gen.Opts(max_types=3, nested_arrays=0.0, styles=('wrapped',), multi_return=False, methods=(1, 3), services=(1, 1), sub_names=True)
+    o = gen.Opts(max_types=3, nested_arrays=0.0, styles=('wrapped',), multi_return=False, methods=(1, 3), services=(1, 1), sub_names=True, seq_min=True)
     return gen.rand_universe(rng, o, uid=uid)
 
 
